@@ -30,6 +30,7 @@ import Fir.Proofs.SimdU16x3Lemmas
 import Fir.Proofs.SimdPassIntLemmas
 import Fir.Proofs.SimdU16x4ALemmas
 import Fir.Proofs.SimdU16x2ALemmas
+import Fir.Proofs.SimdU16x1ALemmas
 
 namespace Fir.C02
 open Fir
@@ -686,6 +687,32 @@ theorem u16x2_avx2_four_rows_masks :
 theorem u16x2_avx2_source_as_modelled :
     Fir.Gen.u16x2_avx2_one_row_skeleton = "normalizer.precision() ; _mm256_setzero_si256() ; chunks_exact(8) ; remainder() ; _mm256_set_epi64x(k[4] as i64, k[4] as i64, k[0] as i64, k[0] as i64) ; _mm256_set_epi64x(k[5] as i64, k[5] as i64, k[1] as i64, k[1] as i64) ; _mm256_set_epi64x(k[6] as i64, k[6] as i64, k[2] as i64, k[2] as i64) ; _mm256_set_epi64x(k[7] as i64, k[7] as i64, k[3] as i64, k[3] as i64) ; simd_utils::loadu_si256(src_row, x) ; _mm256_shuffle_epi8(source, p0_shuffle) ; _mm256_add_epi64(ll_sum, _mm256_mul_epi32(pp_i64x4, coeff04_i64x4)) ; _mm256_shuffle_epi8(source, p1_shuffle) ; _mm256_add_epi64(ll_sum, _mm256_mul_epi32(pp_i64x4, coeff15_i64x4)) ; _mm256_shuffle_epi8(source, p2_shuffle) ; _mm256_add_epi64(ll_sum, _mm256_mul_epi32(pp_i64x4, coeff26_i64x4)) ; _mm256_shuffle_epi8(source, p3_shuffle) ; _mm256_add_epi64(ll_sum, _mm256_mul_epi32(pp_i64x4, coeff37_i64x4)) ; chunks_exact(4) ; remainder() ; _mm256_set_epi64x(k[2] as i64, k[2] as i64, k[0] as i64, k[0] as i64) ; _mm256_set_epi64x(k[3] as i64, k[3] as i64, k[1] as i64, k[1] as i64) ; _mm256_set_m128i(simd_utils::loadl_epi64(src_row, x + 2), simd_utils::loadl_epi64(src_row, x),) ; _mm256_shuffle_epi8(source, p0_shuffle) ; _mm256_add_epi64(ll_sum, _mm256_mul_epi32(pp_i64x4, coeff02_i64x4)) ; _mm256_shuffle_epi8(source, p1_shuffle) ; _mm256_add_epi64(ll_sum, _mm256_mul_epi32(pp_i64x4, coeff13_i64x4)) ; chunks_exact(2) ; remainder() ; _mm256_set_epi64x(k[1] as i64, k[1] as i64, k[0] as i64, k[0] as i64) ; _mm256_set_m128i(simd_utils::loadl_epi32(src_row, x + 1), simd_utils::loadl_epi32(src_row, x),) ; _mm256_shuffle_epi8(source, p0_shuffle) ; _mm256_add_epi64(ll_sum, _mm256_mul_epi32(pp_i64x4, coeff01_i64x4)) ; first() ; _mm256_set_epi64x(0, 0, k as i64, k as i64) ; _mm256_set_m128i(_mm_setzero_si128(), simd_utils::loadl_epi32(src_row, x)) ; _mm256_shuffle_epi8(source, p0_shuffle) ; _mm256_add_epi64(ll_sum, _mm256_mul_epi32(p_i64x4, coeff0_i64x4)) ; _mm256_storeu_si256(ll_buf.as_mut_ptr() as *mut __m256i, ll_sum) ; normalizer.clip(ll_buf[0] + ll_buf[2] + half_error) ; normalizer.clip(ll_buf[1] + ll_buf[3] + half_error)" ∧
     Fir.Gen.u16x2_avx2_four_rows_skeleton = "normalizer.precision() ; _mm256_set1_epi64x(half_error) ; chunks_exact(4) ; remainder() ; _mm256_set1_epi64x(k[0] as i64) ; _mm256_set1_epi64x(k[1] as i64) ; _mm256_set1_epi64x(k[2] as i64) ; _mm256_set1_epi64x(k[3] as i64) ; _mm256_set_m128i(simd_utils::loadu_si128(src_rows[i * 2 + 1], x), simd_utils::loadu_si128(src_rows[i * 2], x),) ; _mm256_shuffle_epi8(source, p0_shuffle) ; _mm256_add_epi64(*sum, _mm256_mul_epi32(pp_i64x4, coeff0_i64x4)) ; _mm256_shuffle_epi8(source, p1_shuffle) ; _mm256_add_epi64(*sum, _mm256_mul_epi32(pp_i64x4, coeff1_i64x4)) ; _mm256_shuffle_epi8(source, p2_shuffle) ; _mm256_add_epi64(*sum, _mm256_mul_epi32(pp_i64x4, coeff2_i64x4)) ; _mm256_shuffle_epi8(source, p3_shuffle) ; _mm256_add_epi64(*sum, _mm256_mul_epi32(pp_i64x4, coeff3_i64x4)) ; chunks_exact(2) ; remainder() ; _mm256_set1_epi64x(k[0] as i64) ; _mm256_set1_epi64x(k[1] as i64) ; _mm256_set_m128i(simd_utils::loadl_epi64(src_rows[i * 2 + 1], x), simd_utils::loadl_epi64(src_rows[i * 2], x),) ; _mm256_shuffle_epi8(source, p0_shuffle) ; _mm256_add_epi64(*sum, _mm256_mul_epi32(pp_i64x4, coeff0_i64x4)) ; _mm256_shuffle_epi8(source, p1_shuffle) ; _mm256_add_epi64(*sum, _mm256_mul_epi32(pp_i64x4, coeff1_i64x4)) ; first() ; _mm256_set1_epi64x(k as i64) ; _mm256_set_m128i(simd_utils::loadl_epi32(src_rows[i * 2 + 1], x), simd_utils::loadl_epi32(src_rows[i * 2], x),) ; _mm256_shuffle_epi8(source, p0_shuffle) ; _mm256_add_epi64(*sum, _mm256_mul_epi32(pp_i64x4, coeff0_i64x4)) ; _mm256_storeu_si256(ll_buf.as_mut_ptr() as *mut __m256i, ll) ; normalizer.clip(ll_buf[0]) ; normalizer.clip(ll_buf[1]) ; normalizer.clip(ll_buf[2]) ; normalizer.clip(ll_buf[3])" := by
+  constructor <;> rfl
+
+/-! ### single-channel 16-bit images on AVX2 (src/convolution/u16x1/avx2.rs)
+
+    Four-row kernel: two rows per 256-bit register, the SSE4.1 instructions per half (mask halves proved equal, call sequence pinned).
+    One-row kernel: 16 / 8 / 4 coefficients split between the halves, a 2-step and the last coefficient in the low half only, the four
+    lanes summed at the end.  Modelled as `Fir.SimdU16x1A.pixelA` (all 16 remainder lengths written out). -/
+
+theorem u16x1_avx2_one_row_eq_portable (p : Nat) (row : List Int) (start : Nat) (ks : List Int) :
+    Fir.SimdU16x1A.pixelA p row start ks = clip16 (2 ^ (p - 1) + Fir.SimdU16x1.dot16 row ks start) p :=
+  Fir.Proofs.U16x1A.pixelA_eq_portable p row start ks
+
+theorem u16x1_one_row_avx2_eq_sse4 (p : Nat) (row : List Int) (start : Nat) (ks : List Int) :
+    Fir.SimdU16x1A.pixelA p row start ks = Fir.SimdU16x1.pixel p row start ks := by
+  rw [u16x1_avx2_one_row_eq_portable, u16x1_sse4_eq_portable]
+
+theorem u16x1_avx2_four_rows_masks :
+    Fir.Gen.u16x1_avx2_four_l01_lo = Fir.Gen.u16x1_sse4_l01 ∧ Fir.Gen.u16x1_avx2_four_l01_hi = Fir.Gen.u16x1_sse4_l01 ∧
+    Fir.Gen.u16x1_avx2_four_l23_lo = Fir.Gen.u16x1_sse4_l23 ∧ Fir.Gen.u16x1_avx2_four_l23_hi = Fir.Gen.u16x1_sse4_l23 ∧
+    Fir.Gen.u16x1_avx2_four_l45_lo = Fir.Gen.u16x1_sse4_l45 ∧ Fir.Gen.u16x1_avx2_four_l45_hi = Fir.Gen.u16x1_sse4_l45 ∧
+    Fir.Gen.u16x1_avx2_four_l67_lo = Fir.Gen.u16x1_sse4_l67 ∧ Fir.Gen.u16x1_avx2_four_l67_hi = Fir.Gen.u16x1_sse4_l67 := by
+  refine ⟨?_, ?_, ?_, ?_, ?_, ?_, ?_, ?_⟩ <;> decide
+
+theorem u16x1_avx2_source_as_modelled :
+    Fir.Gen.u16x1_avx2_one_row_skeleton = "normalizer.precision() ; _mm256_set1_epi64x(0) ; chunks_exact(16) ; remainder() ; _mm256_set_epi64x(k[9] as i64, k[8] as i64, k[1] as i64, k[0] as i64) ; _mm256_set_epi64x(k[11] as i64, k[10] as i64, k[3] as i64, k[2] as i64) ; _mm256_set_epi64x(k[13] as i64, k[12] as i64, k[5] as i64, k[4] as i64) ; _mm256_set_epi64x(k[15] as i64, k[14] as i64, k[7] as i64, k[6] as i64) ; simd_utils::loadu_si256(src_row, x) ; _mm256_shuffle_epi8(source, l0l1_shuffle) ; _mm256_add_epi64(ll_sum, _mm256_mul_epi32(l0l1_i64x4, coeff0189_i64x4)) ; _mm256_shuffle_epi8(source, l2l3_shuffle) ; _mm256_add_epi64(ll_sum, _mm256_mul_epi32(l2l3_i64x4, coeff23ab_i64x4)) ; _mm256_shuffle_epi8(source, l4l5_shuffle) ; _mm256_add_epi64(ll_sum, _mm256_mul_epi32(l4l5_i64x4, coeff45cd_i64x4)) ; _mm256_shuffle_epi8(source, l6l7_shuffle) ; _mm256_add_epi64(ll_sum, _mm256_mul_epi32(l6l7_i64x4, coeff67ef_i64x4)) ; chunks_exact(8) ; remainder() ; _mm256_set_epi64x(k[5] as i64, k[4] as i64, k[1] as i64, k[0] as i64) ; _mm256_set_epi64x(k[7] as i64, k[6] as i64, k[3] as i64, k[2] as i64) ; _mm256_set_m128i(simd_utils::loadl_epi64(src_row, x + 4), simd_utils::loadl_epi64(src_row, x),) ; _mm256_shuffle_epi8(source, l0l1_shuffle) ; _mm256_add_epi64(ll_sum, _mm256_mul_epi32(l0l1_i64x4, coeff0145_i64x4)) ; _mm256_shuffle_epi8(source, l2l3_shuffle) ; _mm256_add_epi64(ll_sum, _mm256_mul_epi32(l2l3_i64x4, coeff2367_i64x4)) ; chunks_exact(4) ; remainder() ; _mm256_set_epi64x(k[3] as i64, k[2] as i64, k[1] as i64, k[0] as i64) ; _mm256_set_m128i(simd_utils::loadl_epi32(src_row, x + 2), simd_utils::loadl_epi32(src_row, x),) ; _mm256_shuffle_epi8(source, l0l1_shuffle) ; _mm256_add_epi64(ll_sum, _mm256_mul_epi32(l0l1_i64x4, coeff0123_i64x4)) ; chunks_exact(2) ; remainder() ; _mm256_set_epi64x(0, 0, k[1] as i64, k[0] as i64) ; _mm256_set_m128i(_mm_setzero_si128(), simd_utils::loadl_epi32(src_row, x)) ; _mm256_shuffle_epi8(source, l0l1_shuffle) ; _mm256_add_epi64(ll_sum, _mm256_mul_epi32(l0l1_i64x4, coeff01_i64x4)) ; _mm256_set1_epi64x(k as i64) ; _mm256_set_epi64x(0, 0, 0, src_row.get_unchecked(x).0 as i64) ; _mm256_add_epi64(ll_sum, _mm256_mul_epi32(source, coeff0_i64x4)) ; _mm256_storeu_si256(ll_buf.as_mut_ptr() as *mut __m256i, ll_sum) ; normalizer.clip(ll_buf.iter().sum::<i64>() + half_error)" ∧
+    Fir.Gen.u16x1_avx2_four_rows_skeleton = "normalizer.precision() ; _mm256_set1_epi64x(0) ; chunks_exact(8) ; remainder() ; _mm256_set_epi64x(k[1] as i64, k[0] as i64, k[1] as i64, k[0] as i64) ; _mm256_set_epi64x(k[3] as i64, k[2] as i64, k[3] as i64, k[2] as i64) ; _mm256_set_epi64x(k[5] as i64, k[4] as i64, k[5] as i64, k[4] as i64) ; _mm256_set_epi64x(k[7] as i64, k[6] as i64, k[7] as i64, k[6] as i64) ; _mm256_set_m128i(simd_utils::loadu_si128(src_rows[i * 2 + 1], x), simd_utils::loadu_si128(src_rows[i * 2], x),) ; _mm256_shuffle_epi8(source, l0l1_shuffle) ; _mm256_add_epi64(*sum, _mm256_mul_epi32(l0l1_i64x4, coeff01_i64x4)) ; _mm256_shuffle_epi8(source, l2l3_shuffle) ; _mm256_add_epi64(*sum, _mm256_mul_epi32(l2l3_i64x4, coeff23_i64x4)) ; _mm256_shuffle_epi8(source, l4l5_shuffle) ; _mm256_add_epi64(*sum, _mm256_mul_epi32(l4l5_i64x4, coeff45_i64x4)) ; _mm256_shuffle_epi8(source, l6l7_shuffle) ; _mm256_add_epi64(*sum, _mm256_mul_epi32(l6l7_i64x4, coeff67_i64x4)) ; chunks_exact(4) ; remainder() ; _mm256_set_epi64x(k[1] as i64, k[0] as i64, k[1] as i64, k[0] as i64) ; _mm256_set_epi64x(k[3] as i64, k[2] as i64, k[3] as i64, k[2] as i64) ; _mm256_set_m128i(simd_utils::loadl_epi64(src_rows[i * 2 + 1], x), simd_utils::loadl_epi64(src_rows[i * 2], x),) ; _mm256_shuffle_epi8(source, l0l1_shuffle) ; _mm256_add_epi64(*sum, _mm256_mul_epi32(l0l1_i64x4, coeff01_i64x4)) ; _mm256_shuffle_epi8(source, l2l3_shuffle) ; _mm256_add_epi64(*sum, _mm256_mul_epi32(l2l3_i64x4, coeff23_i64x4)) ; chunks_exact(2) ; remainder() ; _mm256_set_epi64x(k[1] as i64, k[0] as i64, k[1] as i64, k[0] as i64) ; _mm256_set_m128i(simd_utils::loadl_epi32(src_rows[i * 2 + 1], x), simd_utils::loadl_epi32(src_rows[i * 2], x),) ; _mm256_shuffle_epi8(source, l0l1_shuffle) ; _mm256_add_epi64(*sum, _mm256_mul_epi32(l0l1_i64x4, coeff01_i64x4)) ; _mm256_set1_epi64x(k as i64) ; _mm256_set_epi64x(0, src_rows[i * 2 + 1].get_unchecked(x).0 as i64, 0, src_rows[i * 2].get_unchecked(x).0 as i64,) ; _mm256_add_epi64(*sum, _mm256_mul_epi32(source, coeff0_i64x4)) ; _mm256_storeu_si256(ll_buf.as_mut_ptr() as *mut __m256i, ll) ; normalizer.clip(ll_buf[0] + ll_buf[1] + half_error) ; normalizer.clip(ll_buf[2] + ll_buf[3] + half_error)" := by
   constructor <;> rfl
 
 end Fir.C02
